@@ -43,21 +43,29 @@ func extractC03(o *out) {
 		fail("communicator.go: multiplexToUpstream / muxHandler not found")
 		return
 	}
-	m := regexp.MustCompile(`for _, [A-Za-z0-9_]+ := range ch\.channels \{ mux\.AddHandler\("([^"]*)"\+[A-Za-z0-9_]+\.Name\(\), ch\.muxHandler\) \}`).FindStringSubmatch(src(mux.Body))
-	if m == nil {
+	// Semantic recognisers (x_c03_sem.go): named constants and one-line helpers are evaluated, the first-match loop may
+	// live in a lookup helper, the matched-channel path is followed into helpers of the same package.
+	pkg := c03loadPkg("internal/server")
+	regPrefix, ok := pkg.registration(mux, "muxHandler")
+	if !ok {
 		fail("multiplexToUpstream: handler registration not recognised")
-		m = []string{"", ""}
 	}
-	fmt.Fprintf(b, "/-- communicator.go multiplexToUpstream: mux.AddHandler(<prefix>+u.Name(), ch.muxHandler) for every kept channel -/\ndef registerPrefix : String := %s\n", leanStr(m[1]))
-	mhs := src(mh.Body)
-	m = regexp.MustCompile(`^\{ for _, [A-Za-z0-9_]+ := range ch\.channels \{ if protocol == "([^"]*)"\+[A-Za-z0-9_]+\.Name\(\) \{`).FindStringSubmatch(mhs)
-	if m == nil {
-		fail("muxHandler: first-match loop not recognised")
-		m = []string{"", ""}
+	fmt.Fprintf(b, "/-- communicator.go multiplexToUpstream: mux.AddHandler(<prefix>+u.Name(), ch.muxHandler) for every kept channel -/\ndef registerPrefix : String := %s\n", leanStr(regPrefix))
+	lk, why := pkg.firstMatch(mh)
+	if lk == nil {
+		fail("muxHandler: first-match loop not recognised (%s)", why)
+		lk = &c03lookup{}
 	}
-	fmt.Fprintf(b, "/-- communicator.go muxHandler: first channel with protocol == <prefix>+channel.Name() -/\ndef muxPrefix : String := %s\n", leanStr(m[1]))
-	fmt.Fprintf(b, "/-- number of OpenConnection call sites in muxHandler -/\ndef muxOpenConnectionSites : Nat := %d\n", strings.Count(mhs, ".OpenConnection()"))
-	fmt.Fprintf(b, "/-- muxHandler ends with an error for a protocol no kept channel matches -/\ndef muxUnknownIsError : Bool := %v\n", strings.HasSuffix(mhs, `return errors.Errorf("Uknown protocol %s", protocol) }`))
+	fmt.Fprintf(b, "/-- communicator.go muxHandler: first channel with protocol == <prefix>+channel.Name() -/\ndef muxPrefix : String := %s\n", leanStr(lk.prefix))
+	var badSites []string
+	sites := pkg.openSites(lk.found, c03recvType(mh), c03recvName(mh), lk.foundVar, 3, &badSites) +
+		pkg.openSites(lk.notFound, c03recvType(mh), c03recvName(mh), "", 3, &badSites)
+	if len(badSites) > 0 {
+		fail("muxHandler: OpenConnection on something other than the matched channel: %v", badSites)
+	}
+	fmt.Fprintf(b, "/-- number of OpenConnection call sites in muxHandler -/\ndef muxOpenConnectionSites : Nat := %d\n", sites)
+	fmt.Fprintf(b, "/-- muxHandler ends with an error for a protocol no kept channel matches -/\ndef muxUnknownIsError : Bool := %v\n", c03alwaysError(lk.notFound))
+	var m []string
 	ups := parse("internal/client/upstream/upstream.go")
 	if fn := findFunc(ups, "Upstreams", "openStream"); fn != nil {
 		m = regexp.MustCompile(`ms\.SelectProtoOrFail\(fmt\.Sprintf\("([^"]*)", subProtocol\), stream\)`).FindStringSubmatch(src(fn.Body))
@@ -97,14 +105,17 @@ func extractC03(o *out) {
 	}
 	chn := parse("internal/server/channel.go")
 	if fn := findFunc(chn, "Channels", "Filter"); fn != nil {
-		s := src(fn.Body)
-		fmt.Fprintf(b, "\n/-- channel.go Channels.Filter: an empty / nil list of names returns every channel -/\ndef filterEmptyMeansAll : Bool := %v\n", strings.Contains(s, "if names == nil || len(names) == 0 { return *chl, nil }"))
-		fmt.Fprintf(b, "/-- Channels.Filter: a name Find does not know adds an error and is skipped -/\ndef filterUnknownIsError : Bool := %v\n", strings.Contains(s, "upstream, err := chl.Find(ch) if err != nil { errs = multierror.Append(errs, errors.WithStack(err)) continue }"))
-		fmt.Fprintf(b, "/-- Channels.Filter: an empty result adds an error -/\ndef filterEmptyResultIsError : Bool := %v\n", strings.Contains(s, "if len(upstreams) == 0 { errs = multierror.Append("))
+		emptyAll, unknownErr, emptyResErr := c03filterShape(fn)
+		fmt.Fprintf(b, "\n/-- channel.go Channels.Filter: an empty / nil list of names returns every channel -/\ndef filterEmptyMeansAll : Bool := %v\n", emptyAll)
+		fmt.Fprintf(b, "/-- Channels.Filter: a name Find does not know adds an error and is skipped -/\ndef filterUnknownIsError : Bool := %v\n", unknownErr)
+		fmt.Fprintf(b, "/-- Channels.Filter: an empty result adds an error -/\ndef filterEmptyResultIsError : Bool := %v\n", emptyResErr)
+	} else {
+		fail("channel.go: Channels.Filter not found")
 	}
 	if fn := findFunc(chn, "Channels", "Find"); fn != nil {
-		s := src(fn.Body)
-		fmt.Fprintf(b, "/-- Channels.Find: first channel whose Name() == name (exact, case sensitive) -/\ndef findIsFirstExact : Bool := %v\n", strings.Contains(s, "for _, e := range *chl { if e.Name() == name { return e, nil }"))
+		fmt.Fprintf(b, "/-- Channels.Find: first channel whose Name() == name (exact, case sensitive) -/\ndef findIsFirstExact : Bool := %v\n", c03findShape(fn))
+	} else {
+		fail("channel.go: Channels.Find not found")
 	}
 }
 
